@@ -26,6 +26,7 @@ type c19Case struct {
 var c19Script = "title: Start\n---\n" +
 	`{cap("floor", floor($x))}{cap("ceil", ceil($x))}{cap("inc", inc($x))}{cap("dec", dec($x))}{cap("integer", integer($x))}{cap("decimal", decimal($x))}` +
 	`{cap("round", round($x))}{cap("round_places", round_places($x, $n))}{cap("string", string($x))}{cap("roundtrip", number(string($x)))}` +
+	`{cap("round_places-nested", round_places($x, integer(number(string($n)))))}{cap("floor-nested", floor(number(string($x))))}` +
 	`{cap("number-id", number($x))}{cap("bool-roundtrip", bool(string($b)))}{cap("bool-id", bool($b))}{cap("string-id", string($s))}{cap("string-b", string($b))}` +
 	"\n{cap(\"bad-number\", number($s))}\n{cap(\"bad-bool\", bool($s))}\nlast\n===\n"
 
@@ -144,6 +145,11 @@ func runC19(c c19Case) Verdict {
 	tol := new(big.Float).Add(half, bigF(4*ulp(x)))
 	if d := new(big.Float).Abs(new(big.Float).Sub(bigF(rp), bigF(x))); d.Cmp(tol) > 0 {
 		return bad("round_places(x, n) = %v is further than half a unit of the n-th decimal place (+4 ulp) from x: |difference| = %s", rp, d.Text('g', 20))
+	}
+	if nested, fv := num("round_places-nested"); fv != nil {
+		return *fv
+	} else if math.Float64bits(nested) != math.Float64bits(rp) {
+		return bad("round_places(x, integer(number(string(n)))) = %v, round_places(x, n) = %v", nested, rp)
 	}
 	if rt, fv := num("roundtrip"); fv != nil {
 		return *fv
